@@ -50,6 +50,17 @@ theorem modMass_envC (E : Env) (hq : E.q.deltaIgnoresMult = false) (m : Mod) :
   | delta d => simp [hq, chemMass]
   | bad => simp [chemMass]
 
+theorem compSum_mass' (E : Env) (hq : E.q.deltaIgnoresMult = false) (l : List Mod) (acc : Comp) :
+    chemMass E.em (compSum E acc l) + deltaSum E l = chemMass E.em acc + sumMods (envC E) l := by
+  induction l generalizing acc with
+  | nil => simp [compSum, deltaSum, sumMods]
+  | cons m l ih =>
+    simp only [compSum, deltaSum, sumMods]
+    have := ih (compAdd acc (compOf E m))
+    rw [chemMass_compAdd] at this
+    have hm := modMass_envC E hq m
+    linarith
+
 theorem compSum_mass (E : Env) (hc : Coherent E) (l : List Mod) (acc : Comp) :
     chemMass E.em (compSum E acc l) + deltaSum E l = chemMass E.em acc + sumMods (envC E) l := by
   induction l generalizing acc with
